@@ -10,6 +10,7 @@ func CompileToGetCodeSet(ctx *RuntimeContext, typeptr uintptr) (*OpcodeSet, erro
 		if err != nil {
 			return nil, err
 		}
+		VerifCodeSet(typeptr, codeSet)
 		return getFilteredCodeSetIfNeeded(ctx, codeSet)
 	}
 	index := (typeptr - typeAddr.BaseTypeAddr) >> typeAddr.AddrShift
@@ -18,6 +19,7 @@ func CompileToGetCodeSet(ctx *RuntimeContext, typeptr uintptr) (*OpcodeSet, erro
 		if err != nil {
 			return nil, err
 		}
+		VerifCodeSet(typeptr, filtered)
 		return filtered, nil
 	}
 	codeSet, err := newCompiler().compile(typeptr)
@@ -29,5 +31,6 @@ func CompileToGetCodeSet(ctx *RuntimeContext, typeptr uintptr) (*OpcodeSet, erro
 		return nil, err
 	}
 	cachedOpcodeSets[index] = codeSet
+	VerifCodeSet(typeptr, filtered)
 	return filtered, nil
 }
